@@ -98,7 +98,8 @@ def run(ctx):
         "checks/c10.py generates a copy of control/bpf_stub.go in which BpfMapBatchUpdate/Delete/DeleteAll forward to observer variables (overlay REPLACE; nothing else in the file changes)",
         "DnsCache.DomainBitmap comes from a stub routing.DomainMatcher whose answer the generator chooses (MatchDomainBitmap is C11's subject); the production NewCache closure and replayDnsReloadCache are the real ones",
         "atomic-step model: each cache operation (cache-map mutation + its tracker sync) is one step; goroutine schedules are outside the property's quantifier",
-        "the refresh worker goroutine and the janitor ticker are replaced by explicit `work` / `jan` ops that call the real processBpfUpdateTask / evictExpiredDnsCache on the facade those goroutines are bound to; time is virtual (testing/synctest)",
+        "in two thirds of the cache histories the refresh worker goroutine and the janitor ticker are replaced by explicit `work` / `jan` ops that call the real processBpfUpdateTask / evictExpiredDnsCache on the facade those goroutines are bound to; in every third history the controller comes from NewDnsController and the real goroutines run; time is virtual (testing/synctest)",
+        "a reload is composed as production does (CloneDnsCache, NewDnsController for the new plane, clearReloadDomainRoutingMap + replayDnsReloadCache = CommitPreparedDatapath's DNS steps, ControlPlane.ReuseDNSControllerFrom) but CommitPreparedDatapath / Serve themselves are not called (commitInterfaceBindings needs a network namespace); the transient state between the commit and the reuse hook is not observed",
         "expiry, refresh and LRU policies are observed, not predicted: the model is told which entry a lookup / janitor run evicted and whether a refresh was queued; the theorems hold for every such choice. Predictions are reported as drift notes only",
     ]
     ctx.prove(["DaeVerif.C10.Props"], ["DaeVerif.C10.Props"], ["DaeVerif/C10/*.lean"], extra_targets=["c10drv"])
@@ -137,7 +138,7 @@ def run(ctx):
         n_eval += len(lops)
         for i, (op, im) in enumerate(zip(lops, limpl)):
             st, dr = split(im)
-            if "call(" in dr:
+            if "call(" in dr or (name == "c10c" and " k=0 " not in st + " " and not op.startswith(("sleep", "cdump", "touch"))):
                 distinct.add(op + "|" + st)
             if im.startswith("crash:") or im.startswith("err:"):
                 ctx.report(f"real code misbehaved on `{op[:160]}`: {im[:300]}",
@@ -178,8 +179,9 @@ def run(ctx):
     low = {k: (stats["counters"].get(k, 0), v) for k, v in FLOORS.items() if stats["counters"].get(k, 0) < v}
     ctx.cov["generator_floors"] = {"floors": FLOORS, "below": low}
     ctx.assumptions = [
-        "histories are generated (seeded): 1-6 owners / cache keys (10 % of the cache histories 10-40), address pool 1-8 (forces overlap), answers of 0-64 records (1 % 300), 1-60 ops",
-        "batch syscalls succeed in the cache stream (failing batches are injected in the tracker stream only)",
+        "histories are generated (seeded): 1-6 owners / cache keys (10 % of the cache histories 10-40), address pool 1-8 (forces overlap), answers of 0-5 records (3.6 % 6-64, 0.4 % 300), 1-60 ops",
+        "batch syscalls of cache operations succeed, except the update batch of 4 % of the puts outside real-loops mode (`putf` lines); failing delete batches are injected in the tracker stream only",
+        "whether a put stores its answer, which entries lookups / janitor evict and whether a refresh is queued are observed and told to the model",
     ]
     rc_floor = 0
     if getattr(ctx, "harness_failed", False):
@@ -193,6 +195,8 @@ def run(ctx):
         ctx.say("GENERATOR-BELOW-FLOOR (counter: got < floor): " + json.dumps(low))
         rc_floor = 2
     rc_fin = _finish(ctx, n_eval, distinct)
+    if rc_floor and not rc_fin:
+        ctx.say("NOT-EVIDENCE property=C10: the OK line above does not count, this run exits 2 (see the message before it)")
     return rc_fin or rc_floor
 
 
@@ -201,7 +205,7 @@ def _finish(ctx, n_eval, distinct):
         rule="ops = one tracker call (tupd/trm, with or without an injected batch failure) or one cache operation (put keyed/unkeyed, del, fam, look, hot, jan, sleep, work, touch, reload) "
              "or a full state dump; on every line the strict part is compared (call accepted?, size and fingerprint of the whole table, cache size, mirror flag of the independent Go oracle; on dumps "
              "the whole table and the property-relevant cache contents); the bookkeeping part (batch shapes, queue, policies, stamps, tracker layout) only yields notes; "
-             "distinct_nontrivial counts distinct (op, strict result) pairs with at least one syncOwner call",
+             "distinct_nontrivial counts distinct (op, strict result) pairs: tracker calls that reached syncOwner, cache operations (not sleep/touch/dump) ending with a non-empty table",
         evaluations=n_eval, distinct=len(distinct))
 
 
